@@ -8,7 +8,7 @@
    topic names non-empty and '/'-free, partitions in int32 as the Go types demand) the
    bisimulation is proved for all sixteen Store operations. *)
 From Coq Require Import String.
-From KS Require Import lib.Base lib.Strings model.MetaStore proofs.MetaStoreProofs proofs.MetaStoreKeys proofs.MetaStoreParse proofs.MetaStoreBisim.
+From KS Require Import lib.Base lib.Strings model.MetaStore proofs.MetaStoreProofs proofs.MetaStoreKeys proofs.MetaStoreParse proofs.MetaStoreFlat proofs.MetaStoreBisim.
 Open Scope Z_scope.
 
 Definition C17_statement : Prop :=
@@ -64,6 +64,44 @@ Proof.
   - exists (OLookupOffset (lit "t") (lit "t") 0). split; [reflexivity|repeat split; try apply Ht].
 Qed.
 Print Assumptions C17_all_operations_covered.
+
+(* The etcd store model keeps one map per key family; the real etcd is ONE flat map. For a
+   flat content F that the family maps of s are a view of ([represents]) and family maps that
+   hold only keys of their own shape with '/'-free names ([shaped]): every Put the store
+   issues on the flat map is exactly the Put on the key's own family map (no other family is
+   touched or shadowed), a Get reads the key's own family, and DeleteTopic's prefix delete
+   changes the three topic families only - so the per-family model is a faithful view. *)
+Theorem C17_flat_keyspace_refines_families : forall F s, represents F s -> shaped s ->
+  (forall t p z, noslash t ->
+     represents (aput bytes_eqb (offset_key t p) (VOff z) F) (eset_noff s (aput bytes_eqb (offset_key t p) z (et_noff s)))) /\
+  (forall t c, noslash t ->
+     represents (aput bytes_eqb (topic_config_key t) (VCfg c) F) (eset_cfg s (aput bytes_eqb (topic_config_key t) c (et_cfg s)))) /\
+  (forall t p x, noslash t ->
+     represents (aput bytes_eqb (partition_state_key t p) (VPst x) F) (eset_pstate s (aput bytes_eqb (partition_state_key t p) x (et_pstate s)))) /\
+  (forall g v, noslash g ->
+     represents (aput bytes_eqb (group_key g) (VGrp v) F) (eset_groups s (aput bytes_eqb (group_key g) v (et_groups s)))) /\
+  (forall g t p x, names_noslash g t ->
+     represents (aput bytes_eqb (coff_key g t p) (VCof x) F) (eset_coff s (aput bytes_eqb (coff_key g t p) x (et_coff s)))) /\
+  (forall g t p, names_noslash g t ->
+     aget bytes_eqb (coff_key g t p) F = option_map VCof (aget bytes_eqb (coff_key g t p) (et_coff s))) /\
+  (forall n, represents (adel_if (has_prefix (topic_delete_prefix n)) F)
+     (mkEtcd (et_meta s) (adel_if (has_prefix (topic_delete_prefix n)) (et_noff s))
+             (adel_if (has_prefix (topic_delete_prefix n)) (et_cfg s))
+             (adel_if (has_prefix (topic_delete_prefix n)) (et_pstate s)) (et_groups s) (et_coff s))).
+Proof.
+  intros F s Hr Hs. repeat split; intros.
+  - now apply flat_put_noff.
+  - now apply flat_put_cfg.
+  - now apply flat_put_pstate.
+  - now apply flat_put_group.
+  - now apply flat_put_coff.
+  - now apply flat_get_coff.
+  - now apply flat_delete_topic_prefix.
+Qed.
+Print Assumptions C17_flat_keyspace_refines_families.
+
+Example C17_flat_init : forall b, represents [] (et_new b) /\ shaped (et_new b).
+Proof. exact represents_init. Qed.
 
 (* the formerly diverging shapes, now equal on the models of the fixed code, including
    the operations outside the proven fragment (by computation on concrete histories) *)
